@@ -295,11 +295,11 @@ def run_property(pid, tier, seed, jobs=None, time_cap=None):
         r1 = sorted(f.clause for f in safe_check(prop, w))
         r2 = sorted(f.clause for f in safe_check(prop, w))
         if r1 != r2:
-            sys.stdout.write('MACHINERY-ERROR property=%s non-deterministic verdict for %s: %s vs %s\n'
-                             % (pid, wstr, r1, r2))
-            cleanup_tmp()
-            return 2
-        if clause not in r1:
+            # two consecutive evaluations of the same case on fresh objects disagree: the library
+            # keeps state between calls (the oracles are pure functions of the case).
+            detail = {'seen_in_worker': detail, 'note': 'two consecutive evaluations in one process gave different '
+                      'verdicts (%s then %s): the result depends on earlier executions in the same process' % (r1, r2)}
+        elif clause not in r1:
             # Reproducible twice here but different from what the worker saw: the verdict depends on
             # what the worker process had executed before (state kept between calls by the code
             # under test - a cache, a shared default object).  That is a violation in its own right.
